@@ -52,6 +52,13 @@ Explained(e) ==
     [] e.op = "with_elements" -> GoodT(e, TWithElements(e.lo, e.di, e.up, e.n))
     [] e.op = "new" -> GoodT(e, TNew(e.n))
     [] e.op = "clone" -> GoodRT(e, e.pre)
+    \* ---- the std-trait forms.  t.clone_from(&s): the target becomes a copy of the source, SIZE INCLUDED, whatever it was
+    \* before (same size, larger, smaller, 1 x 1); the source is untouched
+    [] e.op = "clone_from" -> ~e.panic /\ SameTri(e.post, e.b) /\ SameTri(e.bpost, e.b)
+    [] e.op = "clone_into" -> GoodRT(e, e.pre)                        \* the second object .clone_from(this one)
+    \* the second object still holds what it held when it was last written (independence of the two objects)
+    [] e.op = "aux_same" -> ~e.panic /\ SameTri(e.post, e.pre) /\ SameTri(e.rt, e.want)
+    [] e.op = "reclone" -> GoodT(e, e.pre)                            \* replaced by its own clone, the original dropped
     [] e.op = "set" -> IF TInBand(e.pre, e.i, e.j) THEN GoodT(e, TSet(e.pre, e.i, e.j, e.x)) ELSE e.panic
     [] e.op = "transpose_in_place" -> GoodT(e, TTranspose(e.pre))
     [] e.op = "transpose" -> GoodRT(e, TTranspose(e.pre))
@@ -119,7 +126,8 @@ TwoParts(e) == Has(e, "prei")
 PreOK(e) == IF ~IsSeq(e) \/ e.op = "built" THEN TRUE
             ELSE IF TwoParts(e) THEN SameTri(e.pre, cur) /\ SameTri(e.prei, curi)
             ELSE IF ImPart(e) THEN SameTri(e.pre, curi) ELSE SameTri(e.pre, cur)
-After(e) == CASE e.op = "set" -> TSet(e.pre, e.i, e.j, e.x)
+After(e) == CASE e.op = "clone_from" -> e.b
+              [] e.op = "set" -> TSet(e.pre, e.i, e.j, e.x)
               [] e.op = "transpose_in_place" -> TTranspose(e.pre)
               [] e.op \in {"mul_assign", "rebind_mul"} -> TScale(e.pre, e.s)
               [] e.op \in {"div_assign", "rebind_div"} -> TDivS(e.pre, e.s)
@@ -131,7 +139,7 @@ After(e) == CASE e.op = "set" -> TSet(e.pre, e.i, e.j, e.x)
               [] e.op = "with_elements" -> TWithElements(e.lo, e.di, e.up, e.n)
               [] e.op = "new" -> TNew(e.n)
               [] e.op \in {"with_vecs", "with_vectors"} -> Given(e)
-Mutators == {"set", "transpose_in_place", "mul_assign", "rebind_mul", "div_assign", "rebind_div", "add_scalar_assign", "sub_scalar_assign",
+Mutators == {"clone_from", "set", "transpose_in_place", "mul_assign", "rebind_mul", "div_assign", "rebind_div", "add_scalar_assign", "sub_scalar_assign",
              "rebind_neg", "rebind_add", "rebind_sub", "with_elements", "new", "with_vecs", "with_vectors"}
 NextPart(e, v, ok) ==
     IF e.op = "built" THEN (IF e.panic THEN v ELSE Given(e))
